@@ -67,6 +67,8 @@ impl TaskManager {
 				loop {
 					// Wait for notification
 					notify.notified().await;
+					#[cfg(feature = "verif")]
+					crate::verif::yield_async("task.flush.head").await;
 
 					if stop_flag.load(Ordering::SeqCst) {
 						break;
@@ -108,6 +110,8 @@ impl TaskManager {
 						log::debug!("Memtable flush task: no immutables to flush");
 					}
 
+					#[cfg(feature = "verif")]
+					crate::verif::yield_sync("task.flush.pre_idle");
 					running.store(false, Ordering::SeqCst);
 				}
 			});
@@ -126,6 +130,8 @@ impl TaskManager {
 				loop {
 					// Wait for notification
 					notify.notified().await;
+					#[cfg(feature = "verif")]
+					crate::verif::yield_async("task.level.head").await;
 
 					if stop_flag.load(Ordering::SeqCst) {
 						break;
@@ -145,6 +151,8 @@ impl TaskManager {
 						log::debug!("Level compaction completed successfully");
 						write_stall.signal_work_done();
 					}
+					#[cfg(feature = "verif")]
+					crate::verif::yield_sync("task.level.pre_idle");
 					running.store(false, Ordering::SeqCst);
 				}
 			});
